@@ -154,6 +154,19 @@ func (m *closeMon) End(h *Hand, gs *pf.GameState) *vlib.Violation {
 }
 
 func (m *closeMon) Observe(h *Hand, t *Trans) *vlib.Violation {
+	// whenever the hand says the round is closed - also after an operation that was
+	// not expected but accepted - nobody with chips may be behind the wager to match
+	if t.Err == nil && t.Post.Status.CurrentEvent == "RoundClosed" && aliveCount(t.Post) >= 2 {
+		for _, q := range t.Post.Players {
+			if !q.Fold && q.StackSize > 0 && q.Wager != t.Post.Status.CurrentWager {
+				how := "after"
+				if t.Probe {
+					how = "after the unexpected but accepted"
+				}
+				return vlib.V("C05", "closed-early/owes", "%s round is closed %s %s while seat %d has wagered %d of %d and holds %d", t.Post.Status.Round, how, t.Op, q.Idx, q.Wager, t.Post.Status.CurrentWager, q.StackSize)
+			}
+		}
+	}
 	if t.Probe || t.Err != nil {
 		return nil
 	}
